@@ -282,6 +282,18 @@ fn main() {
             write_lines(&args.get("cases", "direction.cases.ndjson"), &cases);
             println!("{}", meta);
         }
+        "centrality" => {
+            let (lines, cases, meta) = rec_direction::centrality(args.num("seed", 1), args.num("count", 200) as usize);
+            write_lines(&args.get("out", "centrality.ndjson"), &lines);
+            write_lines(&args.get("cases", "centrality.cases.ndjson"), &cases);
+            println!("{}", meta);
+        }
+        "centrality-replay" => {
+            let v = load_case(&args);
+            let p: problem::Problem = serde_json::from_value(v["problem"].clone()).unwrap();
+            let (lines, _) = rec_direction::centrality_lines(v["run"].as_u64().unwrap_or(0) as usize, &p);
+            write_lines(&args.get("out", "centrality.ndjson"), &lines);
+        }
         "direction-replay" => {
             let v = load_case(&args);
             let p: problem::Problem = serde_json::from_value(v["problem"].clone()).unwrap();
